@@ -1141,9 +1141,7 @@ func (fr *Frame) binop(op token.Token, x, y Val, xt, yt, rt types.Type, st *Stat
 	if isStringType(xt) {
 		switch op {
 		case token.ADD:
-			r := vc.fresh("strcat", SortRef)
-			vc.assume(pc, Eq(vc.strLen(r), app("bvadd", vc.strLen(x.Ts[0]), vc.strLen(y.Ts[0]))))
-			return Val{Typ: rt, Ts: []T{r}}
+			return Val{Typ: rt, Ts: []T{vc.strCat(pc, x.Ts[0], y.Ts[0])}}
 		default:
 			return vc.freshVal("strcmp", rt)
 		}
@@ -1275,6 +1273,15 @@ func (fr *Frame) convert(x Val, from, to types.Type, st *State, pc T) Val {
 		if _, ok := from.Underlying().(*types.Slice); ok {
 			r := vc.fresh("str", SortRef)
 			vc.assume(pc, Eq(vc.strLen(r), x.Ts[2]))
+			if sl, ok := from.Underlying().(*types.Slice); ok && intWidth(sl.Elem()) == 8 {
+				// string(b) has the bytes of b (as they are at the conversion)
+				vc.strFuns()
+				cl := vc.classSlice(sl.Elem(), "")
+				arr := vc.define("strsrc", SortArr(SortBV(64), SortBV(8)), Sel(vc.heapGet(st, cl, SortArr(SortRef, SortArr(SortBV(64), SortBV(8)))), x.Ts[0]))
+				in := And(app("bvsge", "k", BV(0, 64)), app("bvslt", "k", x.Ts[2]))
+				body := Imp(in, Eq(Sel(app("gv_strdata", r), "k"), Sel(arr, app("bvadd", x.Ts[1], "k"))))
+				vc.assume(pc, "(forall ((k (_ BitVec 64))) (! "+body+" :pattern ((select (gv_strdata "+r+") k))))")
+			}
 			return Val{Typ: to, Ts: []T{r}}
 		}
 		x.Typ = to
@@ -1511,7 +1518,12 @@ func (fr *Frame) mapUpdate(in *ssa.MapUpdate, st *State, pc T) {
 	dcl := vc.classMap(in.Map.Type(), "dom")
 	dsort := SortArr(SortRef, SortArr(ks, SortBool))
 	d := vc.heapGet(st, dcl, dsort)
+	// len grows by at most one per insertion and never shrinks (bounds only: string keys are compared by
+	// identity in this model, so an exact count would be unsound); len < 2^62.
+	lenBefore := vc.mapLen(st, in.Map.Type(), m)
 	vc.heapSet(st, dcl, dsort, Sto(d, m, Sto(Sel(d, m), k, True)))
+	lenAfter := vc.mapLen(st, in.Map.Type(), m)
+	vc.assume(pc, And(app("bvsle", lenBefore, lenAfter), app("bvsle", lenAfter, app("bvadd", lenBefore, BV(1, 64))), app("bvslt", lenBefore, BVu(1<<62, 64))))
 	for i, l := range vc.E.leavesOf(mt.Elem()) {
 		cl := vc.classMap(in.Map.Type(), "val"+l.Path)
 		srt := SortArr(SortRef, SortArr(ks, l.Sort))
